@@ -60,6 +60,15 @@ fn key(o: &Order) -> (u32, String, u64, Option<u64>) {
     (typ_num(&o.order_type), o.symbol.clone(), o.shares.to_bits(), o.price.map(|p| p.to_bits()))
 }
 /// admission order as indices into the submitted batch (each index used once)
+/// `mk_order` plus an optional trailing token: an `order_id` already set when the order is handed in
+pub fn mk_order_toks(t: &[&str]) -> Order {
+    let px = if t[3] == "-" { None } else { Some(pf(t[3])) };
+    let mut o = mk_order(pu(t[0]), t[1], pf(t[2]), px);
+    if t.len() > 4 {
+        o.order_id = Some(pu(t[4]));
+    }
+    o
+}
 pub fn admission_indices(batch: &[Order], admitted: &[Order]) -> Option<Vec<usize>> {
     let mut used = vec![false; batch.len()];
     let mut idx = Vec::new();
